@@ -1,4 +1,5 @@
 import HC.Stream.Http
+import HC.Stream.Ws
 /-!
 # How an application's end reaches its stream
 
@@ -10,7 +11,11 @@ run are read off the source by `tools/extract.py` (`HC/Extracted/AppExit.lean`),
   which exceptions are caught, which are logged, and on which paths completion is signalled with `send(None)`;
 * the branches of `HTTPStream.app_send` taken in state REQUEST — the order of "validate the message", "hand the
   `Response` event to the protocol" and "`self.state = …`": a message that is refused must leave the stream in REQUEST,
-  because that state is what makes `app_send(None)` answer 500.
+  because that state is what makes `app_send(None)` answer 500;
+* the branch of `WSStream.app_send` taken for `websocket.close` in state CONNECTED — the order of "build the close frame"
+  (`int(code)`, wsproto's serialisation: either may refuse the message), "`self.state = CLOSED`" and the awaits: a refused
+  message must leave the stream CONNECTED, because that state is what makes `app_send(None)` send the 1011 close frame
+  (F63), and the state must be CLOSED before the first await once the frame exists (the reader runs in another task).
 -/
 namespace HC.Stream.AppExit
 open HC.Stream
@@ -133,5 +138,79 @@ def commitsAfterSend (prog : List BStep) : Bool :=
   (List.range prog.length).all (fun k =>
     let r := runBranch prog (some k) {}
     r.responseSent || r.st == .request)
+
+/-! ### the completion branch of `HTTPStream.app_send` (`message is None`: the application has ended) -/
+
+/-- what the completion branch does, statement by statement -/
+inductive XAct where
+  | errorResponse (status : Nat)   -- `await self._send_error_response(status)`: a complete response (head, end-of-body, access record)
+  | response                       -- `await self.send(Response(…))`
+  | body                           -- `await self.send(Body(…))`
+  | endBody                        -- `await self.send(EndBody(…))`: the response would be complete
+  | trailers                       -- `await self.send(Trailers(…))`
+  | sendClosed                     -- `await self._send_closed()`: end-of-body, access record, stream-closed
+  | streamClosed                   -- `await self.send(StreamClosed(…))`
+deriving Repr, DecidableEq
+
+/-- the events of one statement, as the model `Http.appSend` lists them -/
+def XAct.events : XAct → List Http.Ev
+  | .errorResponse st => [.response st [("content-length".b, "0".b), ("connection".b, "close".b)], .endBody, .access (some st)]
+  | .response => [.response 0 []]
+  | .body => [.body []]
+  | .endBody => [.endBody]
+  | .trailers => [.trailers []]
+  | .sendClosed => [.endBody, .access none, .streamClosed]
+  | .streamClosed => [.streamClosed]
+
+/-- does the statement complete (or continue) a response?  Only `StreamClosed` does not. -/
+def XAct.completes : XAct → Bool
+  | .streamClosed => false
+  | _ => true
+
+/-! ### the CONNECTED-state `websocket.close` branch of `WSStream.app_send` as a straight-line program -/
+
+inductive WStep where
+  | prepare                     -- an assignment of a plain expression (e.g. `event = CloseConnection(code=int(…), …)`): may raise, no effect
+  | buildFrame                  -- `data = self.connection.send(CloseConnection(code=int(…), reason=…))` inside
+                                --   `try: … except LocalProtocolError: data = None`: may raise (`int()`, wsproto's serialisation), no await
+  | setState (st : Ws.St)       -- `self.state = ASGIWebsocketState.…`
+  | sendEvent                   -- `await self._send_wsproto_event(CloseConnection(code=int(…), …))`: builds the frame (may raise), then awaits its send
+  | sendData                    -- `await self.send(Data(…))` (possibly under `if data is not None:`)
+  | sendEndData                 -- `await self.send(EndData(…))`
+deriving Repr, DecidableEq
+
+structure WRes where
+  st : Ws.St := .connected
+  frameBuilt : Bool := false    -- wsproto has produced the close frame (its own state is LOCAL_CLOSING / CLOSED from here on)
+  yieldedOpen : Bool := false   -- an await was reached with the frame built and `self.state` not yet CLOSED
+deriving Repr, DecidableEq
+
+def WStep.apply (r : WRes) : WStep → WRes
+  | .prepare => r
+  | .buildFrame => { r with frameBuilt := true }
+  | .setState st => { r with st := st }
+  | .sendEvent => { r with frameBuilt := true, yieldedOpen := r.yieldedOpen || r.st != .closed }
+  | .sendData => { r with yieldedOpen := r.yieldedOpen || (r.frameBuilt && r.st != .closed) }
+  | .sendEndData => { r with yieldedOpen := r.yieldedOpen || (r.frameBuilt && r.st != .closed) }
+
+/-- run the branch; `failAt = some k` = the k-th statement raises (before it has any effect) -/
+def runWBranch : List WStep → Option Nat → WRes → WRes
+  | [], _, r => r
+  | _ :: _, some 0, r => r
+  | b :: rest, some (k + 1), r => runWBranch rest (some k) (b.apply r)
+  | b :: rest, none, r => runWBranch rest none (b.apply r)
+
+/-- the clause: wherever the branch is left by an exception, the stream is out of CONNECTED only if the close frame has
+    been produced -/
+def closesAfterFrame (prog : List WStep) : Bool :=
+  (List.range prog.length).all (fun k =>
+    let r := runWBranch prog (some k) {}
+    r.frameBuilt || r.st == .connected)
+
+/-- the clause for the concurrent reader: no prefix of the branch reaches an await with the frame built and the state
+    not yet CLOSED (a raise at statement `k` leaves what the first `k` statements did) -/
+def closedBeforeYield (prog : List WStep) : Bool :=
+  (List.range (prog.length + 1)).all (fun k => !(runWBranch prog (some k) {}).yieldedOpen) &&
+  !(runWBranch prog none {}).yieldedOpen
 
 end HC.Stream.AppExit
